@@ -9,18 +9,28 @@ from . import epy, report, smt
 
 def verify_contracts(run: report.Run, engine: epy.Engine, contracts: typing.List[epy.Contract],
                      on_fail: typing.Optional[typing.Callable[[smt.Result], typing.Optional[report.Failure]]] = None,
-                     text_overrides: typing.Optional[typing.Dict[str, str]] = None) -> typing.List[smt.Result]:
+                     text_overrides: typing.Optional[typing.Dict[str, str]] = None,
+                     witness: typing.Optional[typing.Dict[str, typing.Callable[[], typing.Optional[dict]]]] = None,
+                     ) -> typing.List[smt.Result]:
+    """`witness` maps a contract's qualname to a bounded native search for an input on which the REAL function violates
+    its top-level contract.  It is consulted whenever an obligation of that function is not discharged (sat or unknown):
+    a witness found is a violation with a replayed failing input; `sat` without witness is a violation reported as
+    no-failing-input-found; `unknown` without witness stays undecided."""
     all_obs: typing.List[smt.Obligation] = []
     per_fn: typing.Dict[str, typing.Dict[str, typing.Any]] = {}
     for c in contracts:
         t0 = time.time()
         try:
             obs, info = engine.verify(c, (text_overrides or {}).get(c.target))
-        except epy.BindingError as ex:
-            run.undecide(f"binding failure: {ex}")
-            continue
-        except epy.OutOfSubset as ex:
-            run.undecide(f"{c.target}: out of the E-PY subset: {ex}")
+        except (epy.BindingError, epy.OutOfSubset) as ex:
+            kind = "binding failure" if isinstance(ex, epy.BindingError) else "out of the E-PY subset"
+            # the function cannot be brought under its contract deductively on this tree: fall back to the bounded
+            # native search against the same top-level contract; only a concrete failing input is ever reported
+            w = witness[c.qualname]() if witness and c.qualname in witness else None
+            if w is not None:
+                run.fail(report.Failure(f"{c.qualname}#contract", "post", f"{c.target}: {kind} ({ex}); bounded native search: real code fails its "
+                                        f"contract on {w.get('input')!r}: {w.get('why', '')}", {"witness": w}, True))
+            run.undecide(f"{c.target}: {kind}: {ex}")
             continue
         run.add_function(c.target)
         info["gen_s"] = round(time.time() - t0, 2)
@@ -35,7 +45,25 @@ def verify_contracts(run: report.Run, engine: epy.Engine, contracts: typing.List
     results = smt.solve_all(all_obs)
     run.add_results(results)
     reported = set()
+    wcache: typing.Dict[str, typing.Optional[dict]] = {}
     for r in results:
+        if not r.ok and witness and r.ob.function in witness:
+            base = r.ob.name.split("/p")[0]
+            if base in reported:
+                continue
+            if r.ob.function not in wcache:
+                wcache[r.ob.function] = witness[r.ob.function]()
+            w = wcache[r.ob.function]
+            if w is not None:
+                reported.add(base)
+                run.fail(report.Failure(base, r.ob.kind, f"{r.ob.name} not discharged ({r.status}); real code fails its contract on {w.get('input')!r}: {w.get('why', '')}",
+                                        {"witness": w, "model": r.model, "solver_output": r.raw[:3000], "smt2": r.ob.smt2()}, True))
+                continue
+            if r.status == "sat":
+                reported.add(base)
+                run.fail(report.Failure(base, r.ob.kind, f"{r.ob.name} not discharged (sat); model {dict(list(r.model.items())[:6])}",
+                                        {"model": r.model, "solver_output": r.raw[:3000], "smt2": r.ob.smt2()}, False))
+            continue
         if not r.ok and r.status == "sat" and on_fail is not None:
             base = r.ob.name.split("/p")[0]
             if base in reported:
